@@ -114,15 +114,35 @@ def second_chance(prop: str, mod, tier: str, root: str, rep: Report, ctx, extra_
             r2, c2 = _second_chance_once(prop, mod, tier, root, rep, ctx, extra_targets, use_protect, with_callers)
             if r2 is not rep:
                 return r2, c2
+    # a rule whose first run looked *into* the new helper (a taint or effect scan touches every function it reaches) protects it
+    # in the attempts above, and without any protection the anchors get inlined as well: release one touched private helper
+    # called from the named functions at a time
+    import ast as _ast
+    named = {f.construct for f in rep.findings() if f.construct in ctx.prog.functions}
+    cands = []
+    for q in sorted(named):
+        fi = ctx.prog.functions[q]
+        for n_ in _ast.walk(fi.node):
+            if isinstance(n_, _ast.Call):
+                nm = n_.func.attr if isinstance(n_.func, _ast.Attribute) else n_.func.id if isinstance(n_.func, _ast.Name) else None
+                if nm and nm.startswith("_") and not nm.startswith("__"):
+                    for hq in ctx.prog.functions:
+                        if hq.rsplit(".", 1)[-1] == nm and hq in ctx._touched_funcs and hq not in cands and hq not in named:
+                            cands.append(hq)
+    for hq in cands[:6]:
+        r2, c2 = _second_chance_once(prop, mod, tier, root, rep, ctx, extra_targets, True, False, release={hq})
+        if r2 is not rep:
+            return r2, c2
     return rep, ctx
 
 
-def _second_chance_once(prop: str, mod, tier: str, root: str, rep: Report, ctx, extra_targets, use_protect: bool, with_callers: bool):
+def _second_chance_once(prop: str, mod, tier: str, root: str, rep: Report, ctx, extra_targets, use_protect: bool, with_callers: bool,
+                        release: set = frozenset()):
     from sa.context import Ctx
 
     targets: set = set()
     cur = rep
-    protect = set(ctx._touched_funcs) if use_protect else set()
+    protect = (set(ctx._touched_funcs) - set(release)) if use_protect else set()
     for _ in range(3):
         named = {f.construct for f in cur.findings()}
         # a finding may name a new private helper itself (e.g. a conversion site that moved into it): its callers are where it is inlined
@@ -157,7 +177,7 @@ def _second_chance_once(prop: str, mod, tier: str, root: str, rep: Report, ctx, 
             return rep2, ctx2
         cur = rep2
         if use_protect:
-            protect |= set(ctx2._touched_funcs)
+            protect |= set(ctx2._touched_funcs) - set(release)
     return rep, ctx
 
 
